@@ -23,6 +23,7 @@ import (
 	"net/http"
 	"os"
 	"reflect"
+	"runtime/debug"
 	"sort"
 	"strings"
 	"sync"
@@ -270,7 +271,8 @@ type rfWriter struct {
 func (p *rfWriter) Write(x []byte) (int, error) { p.b = append(p.b, x...); return len(x), nil }
 func (p *rfWriter) WriteByte(c byte) error      { p.b = append(p.b, c); return nil }
 func (p *rfWriter) ReadFrom(r io.Reader) (int64, error) {
-	buf := make([]byte, p.n)
+	buf := getBuf(p.n)
+	defer putBuf(buf)
 	var total int64
 	for {
 		k, err := r.Read(buf)
@@ -362,7 +364,8 @@ func serialise(mode readMode, req *http.Request, res *http.Response) (o output) 
 	}
 	o.Head = sb.String()
 	if body != nil {
-		buf := make([]byte, mode.N)
+		buf := getBuf(mode.N)
+		defer putBuf(buf)
 		for {
 			k, err := body.Read(buf)
 			o.Body = append(o.Body, buf[:k]...)
@@ -557,8 +560,23 @@ func martianTestContext(req *http.Request) (*martian.Context, func(), error) {
 	return martian.TestContext(req, nil, nil)
 }
 
+// readBufs recycles the harness's own read buffers (a fresh 64 KiB buffer per case was a tenth of the run time).
+var readBufs sync.Pool
+
+func getBuf(n int) []byte {
+	if b, ok := readBufs.Get().(*[]byte); ok && cap(*b) >= n {
+		return (*b)[:n]
+	}
+	return make([]byte, n, max(n, 65536))
+}
+
+func putBuf(b []byte) { b = b[:cap(b)]; readBufs.Put(&b) }
+
 func main() {
 	mlog.SetLevel(mlog.Silent)
+	// the live heap is a few messages per worker; collecting less often costs little memory and saves ~10% time
+	debug.SetGCPercent(400)
+	debug.SetMemoryLimit(8 << 30) // (collect harder instead of growing beyond 8 GiB: the 1 MiB class of thorough reached 12 GiB)
 	rep := lib.NewReport("C15", "model_checking")
 	tier := lib.Tier()
 
@@ -670,6 +688,9 @@ func main() {
 			if only != nil && only.Mode != "" && only.Mode != mode.Name {
 				continue
 			}
+			if skipMode(mode, m, nil) {
+				continue
+			}
 			mode = sized(mode, m)
 			req, res, _, remove := parse()
 			twins[mi] = serialise(mode, firstReq(isReq, req), secondRes(isReq, res))
@@ -692,6 +713,9 @@ func main() {
 			statesMu.Unlock()
 			for mi, mode := range readModes {
 				if only != nil && (only.Part != "" && only.Part != "forward" || only.Skip || only.Mode != "" && only.Mode != mode.Name) {
+					continue
+				}
+				if skipMode(mode, m, &v) {
 					continue
 				}
 				mode = sized(mode, m)
@@ -944,6 +968,32 @@ func sized(mode readMode, m *msggen.Msg) readMode {
 		}
 	}
 	return mode
+}
+
+// skipMode trims the serialisation modes of large bodies (a case copies the body several times). Bodies of
+// the 1 MiB class are serialised in four of the seven modes: the three left out differ from the others in the
+// read-buffer size only and are run on every class up to 64 KiB. Bodies above 60 000 bytes are serialised in
+// all (remaining) modes after one variant per logger family and in three modes (one per copy path) after the
+// other variants, which differ from their family's representative in the capture decision only.
+func skipMode(mode readMode, m *msggen.Msg, v *variant) bool {
+	if len(m.Encoded) > 600000 {
+		switch mode.Name {
+		case "Write(ReaderFrom buf=4097)", "Body.Read(buf=small)", "Body.Read(buf=511)":
+			return true
+		}
+	}
+	if v == nil || len(m.Encoded) <= 60000 {
+		return false
+	}
+	switch v.Name {
+	case "har(all)", "marbl(stream)", "martianlog(body,decode)", "messageview(body)":
+		return false
+	}
+	switch mode.Name {
+	case "Write(bytes.Buffer)", "Write(ReaderFrom buf=small)", "Body.Read(buf=65536)":
+		return false
+	}
+	return true
 }
 
 // skipName is the component named in skip-logging signatures (the marbl Stream API has no context, so only
